@@ -151,6 +151,12 @@ func createKeyStore(blocks []*pem.Block, password string) (keyStore, error) {
 		}
 	}
 
+	// a key store without any key material cannot be used for anything. Such a key store
+	// is e.g. observed if the underlying file is read while being (re)written.
+	if len(entries) == 0 {
+		return nil, errorchain.NewWithMessage(heimdall.ErrConfiguration, "no key material present in the pem file")
+	}
+
 	return verifyAndBuildKeyStore(entries, certs)
 }
 
